@@ -9,6 +9,7 @@
 Verdict = lock monitor (definite wait-for cycle / self-acquisition) or global
 quiescence with an unfinished API call and no timer left."""
 import random
+import threading
 import itertools
 from concurrent.futures import TimeoutError as FTimeout, CancelledError
 
@@ -52,6 +53,16 @@ def cases(tier, seed):
         if "timeout" in layers:
             out.append({"name": "api.pair/%s/worker-timer" % ">".join(layers), "kind": "pair", "layers": layers,
                         "victim": "worker-timer", "cap": cap})
+    # the delegate refuses a hand-over made by an internal thread (retry after back-off, throttle hand-over)
+    rst = [["retry"], ["retry", "map"], ["retry", "flat_map"], ["retry", "timeout"], ["retry", "cos"], ["map", "retry"], ["retry", "throttle"],
+           ["throttle"], ["throttle", "map"], ["throttle", "retry"]]
+    if tier == "thorough":
+        rst += [["retry", x, y] for x in SINGLE for y in ("map", "cos", "timeout")]
+    for layers in rst:
+        for resub in (False, True):
+            for victim in ("cancel", "submit", "add_cb", "shutdown", "worker-refused"):
+                out.append({"name": "api.refused/%s/%s%s" % (">".join(layers), victim, "/cb-resubmits" if resub else ""), "kind": "refused",
+                            "layers": layers, "victim": victim, "resub": resub, "cap": 16 if tier == "quick" else None})
     for base in ("sync", "pool"):
         for layers in stacks1 + (stacks2 if tier == "thorough" else stacks2[:4]):
             out.append({"name": "nested.submit/%s/%s" % (base, ">".join(layers)), "kind": "nested", "base": base,
@@ -207,6 +218,116 @@ class PairScenario(object):
             res.key(">".join(self.layers), self.a, self.b, info["site"])
         res.sample({"stack": self.layers, "victim": self.a, "intervention": self.b, "placement": info.get("site"),
                     "intervention_state_when_victim_released": info.get("istate")}, limit=2)
+
+
+class RefusedScenario(PairScenario):
+    """f0 waits inside the library for an internal thread to hand it to the delegate (a retry in back-off, a
+    throttled job behind a full queue); the delegate will refuse that hand-over.  The hand-over is raced against
+    client operations on the outermost future / executor."""
+
+    def __init__(self, case, b):
+        PairScenario.__init__(self, case["layers"], case["victim"], b)
+        self.case = case
+        for L in self.spec["layers"]:
+            if L["t"] == "throttle":
+                L["count"] = 1
+
+    def setup(self):
+        ctx = Ctx()
+        b = stacks.build(ctx, self.spec)
+        ctx.b = b
+        ctx.me = b.base
+        ctx.fn = Recorded("job", lambda idx, *a: ("v", idx))
+        ctx.extra = []
+        layers = self.layers
+        if "throttle" in layers:
+            # a filler occupies the only slot: f0 is queued in the throttle
+            ctx.f1 = b.top.submit(ctx.fn, 1)
+            instr.settle()
+        ctx.f0 = b.top.submit(ctx.fn, 0)
+        if "throttle" not in layers:
+            ctx.f1 = b.top.submit(ctx.fn, 1)
+        instr.settle()
+        if self.case["resub"]:
+            def cb(f):
+                try:
+                    ctx.extra.append(call("submit", b.top.submit, ctx.fn, 9, _tag="cb"))
+                except RuntimeError:
+                    pass
+            ctx.f0.add_done_callback(cb)
+        ctx.me.refuse = True
+        return ctx
+
+    def handover(self, ctx):
+        """Make the internal thread attempt the hand-over of f0."""
+        me = ctx.me
+        if "throttle" in self.layers:
+            # free the slot: the filler's delegate item completes
+            for k in me.pending():
+                if me.items[k][2][:1] == (1,) or True:
+                    me.complete(k, ("filler", k))
+                    break
+        else:
+            # f0's first attempt fails -> back-off -> the retry thread re-submits when its timer fires
+            for k in me.pending():
+                if me.items[k][2][:1] == (0,):
+                    me.fail(k, UserErrorA("attempt0"))
+                    break
+            # (this runs inside an actor: it must not count itself when waiting for the retry thread to park)
+            cur = threading.current_thread()
+            was = getattr(cur, "external", None)
+            if was is not None:
+                cur.external = True
+            try:
+                instr.settle()
+            finally:
+                if was is not None:
+                    cur.external = was
+            fire_next_timer("Retry")
+
+    def victim_role(self, ctx):
+        if self.a == "worker-refused":
+            want = "Throttle" if "throttle" in self.layers and "retry" not in self.layers else None
+            ths = [t for t in instr.TRACKED if t.vf_started and (want is None or want in t.vf_role)]
+            if "retry" in self.layers:
+                ths = [t for t in ths if "Retry" in t.vf_role] or ths
+            return ths[-1].vf_role if ths else "V"
+        return "V"
+
+    def start_victim(self, ctx):
+        if self.a == "worker-refused":
+            return ctx.actor("T", self.handover, ctx).go()
+        return ctx.actor("V", self.op, ctx, self.a, "V").go()
+
+    def intervene(self, ctx):
+        if self.b == "handover":
+            self.handover(ctx)
+        else:
+            self.op(ctx, self.b, "I")
+
+    def hang_key(self, ctx, stuck):
+        return "refused/%s/%s|%s" % (">".join(self.layers), self.a, self.b)
+
+    def finish(self, ctx):
+        ctx.me.refuse = False
+        PairScenario.finish(self, ctx)
+
+    def oracle(self, ctx, res, info):
+        PairScenario.oracle(self, ctx, res, info)
+        res.count("refused_handovers", len(LOG.select("me.submit.refused")))
+
+
+def run_refused(case, res):
+    rng = random.Random("c04r/%s/%s" % (case["seed"], case["name"]))
+    if case["victim"] == "worker-refused":
+        others = ["cancel", "submit", "add_cb", "shutdown", "result"]
+    else:
+        others = ["handover"]
+    for b in others:
+        sw = Sweep(RefusedScenario(case, b), res, "vt", case["name"] + "|" + b)
+        sw.run(case["cap"], rng, per_site=1)
+        if harness.need_recycle():
+            return
 
 
 def run_pair(case, res):
@@ -655,6 +776,8 @@ def run_case(case, res):
         return run_nested_race(case, res)
     if case["kind"] == "nestedcb":
         return run_nestedcb(case, res)
+    if case["kind"] == "refused":
+        return run_refused(case, res)
     if case["kind"] == "pair":
         run_pair(case, res)
     elif case["kind"] == "nested":
